@@ -104,6 +104,12 @@ func runC08Input(t *testing.T, ins []c08Input) CaseOut {
 			if in.Then == "eof" || strings.HasPrefix(line, "Streaming results") || strings.HasPrefix(line, "Connecting") {
 				open = false // the command took over the connection (stdin upload, result stream, bridge)
 			}
+			if open && strings.HasPrefix(line, "ERROR") {
+				// malformed JSON is answered with two ERROR lines; take the second one off the wire before the next request
+				if extra, err := s.readLine(2 * time.Second); err == nil && !strings.HasPrefix(extra, "ERROR") {
+					out.violate("ctl:unsolicited-line", "after input %s an unsolicited line arrived: %q", in.Name, trunc(extra, 80))
+				}
+			}
 		}
 		last := ins[len(ins)-1]
 		// probe on the same session
@@ -183,7 +189,7 @@ func c08Menu(thorough bool) []c08Input {
 	for _, sub := range []string{"", "list", "status", "cancel", "release", "force-release", "results", "submit", "bogus"} {
 		for _, rest := range []string{"", " nounit00", " nounit00 0", " nounit00 x", " nounit00 0 1", " . ", " ..", " a/b", " ../../etc", " n1 echo", " n1 nosuchtype", " othernode echo"} {
 			l := "work " + sub + rest
-			if sub == "submit" && len(strings.Fields(rest)) >= 2 {
+			if sub == "submit" && len(strings.Split("submit"+rest, " ")) >= 3 { // the server splits on single spaces
 				// an accepted submit takes over the connection: send stdin and end of input
 				ins = append(ins, c08Input{Name: "text " + l, Bytes: []byte(l + "\nstdin\n"), Expect: "reply", Class: "text-work-submit", Then: "eof"})
 				continue
